@@ -362,7 +362,11 @@ func main() {
 	f := gallina.ParseFlags()
 	meta := gallina.NewMeta("C38", f.Seed, f.Tier)
 	meta.Rule = "corpus of fixed chains + seeded random (label set, chain of 1..6 Validate()-accepted rules over all eleven actions; hashmod with modulus 0 as the only malformed rule); every rule applied singly through relabel.ProcessBuilder on one builder; non-trivial = at least one rule application changed the label set, dropped it or panicked; distinct by (base, rules)"
-	cf := &gallina.CaseFile{Dir: f.Out, Type: "case", PerShard: 60,
+	perShard := 60
+	if f.Tier == "thorough" {
+		perShard = 250
+	}
+	cf := &gallina.CaseFile{Dir: f.Out, Type: "case", PerShard: perShard,
 		Preamble: "From Coq Require Import List ZArith NArith.\nFrom Verif Require Import model.Relabel corr.CorrC38.\nImport ListNotations.\nOpen Scope Z_scope.\n",
 		Footer:   gallina.StdFooter}
 	id := 0
@@ -499,7 +503,7 @@ func main() {
 	emit(nil, nil, "empty")
 
 	// ---- seeded random chains
-	n := f.Count(350, 20000)
+	n := f.Count(350, 8000)
 	for i := 0; i < n; i++ {
 		r := gen.Fork(f.Seed, i)
 		base := genBase(r)
